@@ -16,7 +16,7 @@ Proof. unfold upd. intros H. destruct (q =? p) eqn:E; auto. apply N.eqb_eq in E.
 Definition is_open (x : option pstate) : bool := match x with Some (Open _) => true | _ => false end.
 
 Ltac setters :=
-  cbn [ps pend hsI hsO hopen hval conn dead nsid spend tasks ntask lastt
+  cbn [ps pend hsI hsO hopen hval conn dead nsid spend tasks ntask lastt timers narm set_timers arm
        set_ps set_pend set_hsI set_hsO set_hopen set_hval set_conn set_dead set_nsid set_spend set_tasks spawn_task] in *.
 
 (* ------------------------------------------------------------------ task list facts *)
@@ -73,4 +73,12 @@ Proof.
     + intros H. apply in_app_or in H. destruct H as [H|[H|[]]]; auto.
     + apply IH; auto.
 Qed.
+
+
+(* state after a list of events (None: stuck on the way) *)
+Fixpoint exec (c : cfg) (s : st) (l : list op) : option st :=
+  match l with
+  | [] => Some s
+  | o :: t => match step c s o with Some (s1, _, _) => exec c s1 t | None => None end
+  end.
 
